@@ -16,6 +16,7 @@ package http
 import (
 	"bytes"
 	"context"
+	"io"
 	"io/ioutil"
 	"math/rand"
 	"net"
@@ -138,9 +139,24 @@ func (h *Handler) ServeHTTP(response http.ResponseWriter, request *http.Request)
 			return
 		}
 	}
-	data, err := readAll(request.Body, request.ContentLength)
+	body := request.Body
+	if request.ContentLength < 0 && body != nil {
+		// no declared length (chunked): the limit applies to the bytes actually received
+		body = ioutil.NopCloser(io.LimitReader(body, int64(h.Service.MaxRequestLength)+1))
+	}
+	data, err := readAll(body, request.ContentLength)
 	if err != nil {
+		// the body is shorter than declared or could not be read: it must not be
+		// processed truncated or padded
 		h.onError(response, request, err)
+		_ = request.Body.Close()
+		response.WriteHeader(http.StatusBadRequest)
+		return
+	}
+	if len(data) > h.Service.MaxRequestLength {
+		_ = request.Body.Close()
+		response.WriteHeader(http.StatusRequestEntityTooLarge)
+		return
 	}
 	if err = request.Body.Close(); err != nil {
 		h.onError(response, request, err)
@@ -277,6 +293,11 @@ func (h *Handler) ServeFastHTTP(ctx *fasthttp.RequestCtx) {
 	}
 	serviceContext := h.getFastHTTPServiceContext(ctx)
 	body := ctx.Request.Body()
+	if len(body) > h.Service.MaxRequestLength {
+		// no (or a wrong) declared length: the limit applies to the bytes actually received
+		ctx.SetStatusCode(fasthttp.StatusRequestEntityTooLarge)
+		return
+	}
 	request := make([]byte, len(body))
 	copy(request, body)
 	result, err := h.Service.Handle(core.WithContext(context.Background(), serviceContext), request)
